@@ -31,6 +31,9 @@ type IAMCache struct {
 	service  IAMService
 	iamcache *icache
 	cancel   context.CancelFunc
+	// mu serializes the account changes: the change of the service and the
+	// matching change of the cache must not interleave with another change
+	mu sync.Mutex
 }
 
 var _ IAMService = &IAMCache{}
@@ -159,6 +162,9 @@ func NewCache(service IAMService, expireTime, cleanupInterval time.Duration) *IA
 
 // CreateAccount send create to IAM service and creates an account cache entry
 func (c *IAMCache) CreateAccount(account Account) error {
+	c.mu.Lock()
+	defer c.mu.Unlock()
+
 	err := c.service.CreateAccount(account)
 	if err != nil {
 		return err
@@ -201,6 +207,9 @@ func (c *IAMCache) GetUserAccount(access string) (Account, error) {
 
 // DeleteUserAccount deletes account from IAM service and cache
 func (c *IAMCache) DeleteUserAccount(access string) error {
+	c.mu.Lock()
+	defer c.mu.Unlock()
+
 	err := c.service.DeleteUserAccount(access)
 	if err != nil {
 		return err
@@ -211,6 +220,9 @@ func (c *IAMCache) DeleteUserAccount(access string) error {
 }
 
 func (c *IAMCache) UpdateUserAccount(access string, props MutableProps) error {
+	c.mu.Lock()
+	defer c.mu.Unlock()
+
 	err := c.service.UpdateUserAccount(access, props)
 	if err != nil {
 		return err
